@@ -6,6 +6,7 @@ package generator
 
 import (
 	"github.com/basecomplextech/spec/internal/lang/model"
+	"strings"
 )
 
 type fileWriter struct {
@@ -37,9 +38,24 @@ func (w *fileWriter) file(file *model.File) error {
 		w.line(`"github.com/basecomplextech/spec/proto/prpc"`)
 	}
 
+	// Render definitions to find out which schema imports are referenced by the generated code,
+	// unused imports are imported as blank, otherwise the file does not compile.
+	body := ""
+	if len(file.Imports) > 0 {
+		tmp := newFileWriter(newWriter(w.skipRPC))
+		if err := tmp.definitions(file); err != nil {
+			return err
+		}
+		body = tmp.b.String()
+	}
+
 	for _, imp := range file.Imports {
 		pkg := importPackage(imp)
-		w.linef(`%v "%v"`, imp.Name, pkg)
+		name := imp.Name
+		if !strings.Contains(body, imp.Name+".") {
+			name = "_"
+		}
+		w.linef(`%v "%v"`, name, pkg)
 	}
 	w.line(")")
 	w.line()
